@@ -241,6 +241,7 @@ func cmdCheck(args []string) {
 	knownPrinted := map[string]bool{}
 	obligations, discharged := 0, 0
 	var violLines []string
+	crossSessionsN, crossQueries, crossDisagree, crossProblems := 0, 0, 0, 0
 
 	for _, hs := range spec.Harnesses {
 		if *only != "" && hs.Name != *only {
@@ -271,6 +272,12 @@ func cmdCheck(args []string) {
 		}
 		if v, ok := params["_samples"]; ok {
 			cfg.SampleN = v
+		}
+		if *tier == "thorough" {
+			cfg.CrossN = 25
+		}
+		if v, ok := params["_cross"]; ok {
+			cfg.CrossN = v
 		}
 		th := time.Now()
 		ex, stats, err := Explore(env, *id, hs.Name, cfg)
@@ -321,6 +328,31 @@ func cmdCheck(args []string) {
 		}
 		obligations += ex.assertsChecked
 		discharged += ex.assertsFolded + ex.assertsUnsat
+
+		// --- solver cross-check: recorded path sessions replayed on z3 5.1 and cvc5
+		for _, cs := range ex.crossSessions {
+			for _, other := range []string{"z3-new", "cvc5"} {
+				ans, err := crossCheck(other, cs.Script, cfg.TimeoutMs)
+				crossQueries += len(cs.Answers)
+				if err != nil {
+					crossProblems++
+					continue
+				}
+				if len(ans) != len(cs.Answers) {
+					crossProblems++
+					fmt.Printf("INCONCLUSIVE property=%s harness=%s solver cross-check: %s answered %d of %d queries\n", *id, hs.Name, other, len(ans), len(cs.Answers))
+					continue
+				}
+				for i := range ans {
+					if ans[i] != cs.Answers[i] && ans[i] != "unknown" && ans[i] != "timeout" && cs.Answers[i] != "unknown" {
+						crossDisagree++
+						fmt.Printf("INCONCLUSIVE property=%s harness=%s solver cross-check: z3 says %s, %s says %s (query %d of a recorded path)\n", *id, hs.Name, cs.Answers[i], other, ans[i], i)
+					}
+				}
+			}
+			crossSessionsN++
+		}
+		totalInconc += crossDisagree + crossProblems
 
 		// --- translator validation on sampled paths
 		var jobs []nativeJob
@@ -475,6 +507,7 @@ func cmdCheck(args []string) {
 			"samples": allSamples, "obligations": obligations, "discharged": discharged,
 			"bounds": spec.Bounds, "harnesses": reports, "functions_encoded": repoFns, "functions_encoded_count": len(repoFns),
 			"inconclusive_total": totalInconc, "translator_mismatches": totalMismatch,
+			"solver_cross_check": map[string]interface{}{"recorded_path_sessions": crossSessionsN, "queries_replayed_on_z3_5.1_and_cvc5": crossQueries, "disagreements": crossDisagree, "solver_failures": crossProblems},
 			"explanation": "bounded symbolic execution of the real code (go/ssa of /repo's working tree) with z3 deciding every feasible branch and every assertion; states = completed symbolic paths, transitions = SSA instructions executed, traces_validated = sampled path models re-run natively with identical observations",
 		},
 		"assumptions": assumptions,
